@@ -63,7 +63,8 @@ def _strategy(draw):
     # a residue graph need not carry residue ids: they then follow from the node keys 0..n-1
     no_resid = (route in ("gen_params", "graph") and key_offset == 0 and idmap is None
                 and draw(st.integers(0, 2)) == 0)
-    return {"bases": bases, "circular": circular, "route": route, "bad": bad, "edge_labels": labels,
+    resid_start = draw(st.sampled_from([1, 1, 1, 0, 5])) if route == "graph" else 1
+    return {"bases": bases, "circular": circular, "route": route, "bad": bad, "edge_labels": labels, "resid_start": resid_start,
             "no_resid": no_resid, "key_offset": key_offset, "edge_order": edge_order, "node_order": node_order, "idmap": idmap,
             "rng": draw(st.integers(0, 2**31 - 1))}
 
@@ -129,10 +130,11 @@ def check(spec, ctx):
         off = spec.get("key_offset", 0)
         key = spec.get("idmap") or [i + off for i in range(n)]
         for i in (spec.get("node_order") or range(n)):
+            rs = spec.get("resid_start", 1)
             if spec.get("no_resid"):
                 graph.add_node(key[i], resname=names[i])       # the residue ids follow from the node keys
             else:
-                graph.add_node(key[i], resname=names[i], resid=i + 1)
+                graph.add_node(key[i], resname=names[i], resid=i + rs)
         order = spec.get("edge_order") or list(range(n - 1))
         for i in order:
             graph.add_edge(key[i], key[i + 1])
@@ -168,8 +170,10 @@ def check(spec, ctx):
     else:
         return check_gen_params(spec, ctx, names)
 
-    before_nodes = {meta.nodes[k]["resid"]: meta.nodes[k]["resname"] for k in meta.nodes}
-    before_edges = {frozenset((meta.nodes[u]["resid"], meta.nodes[v]["resid"])): dict(d)
+    # the strand may be numbered from another value than 1 (graph route): everything is compared in ids relative to it
+    base = (spec.get("resid_start", 1) - 1) if (route == "graph" and not spec.get("no_resid")) else 0
+    before_nodes = {meta.nodes[k]["resid"] - base: meta.nodes[k]["resname"] for k in meta.nodes}
+    before_edges = {frozenset((meta.nodes[u]["resid"] - base, meta.nodes[v]["resid"] - base)): dict(d)
                     for u, v, d in meta.edges(data=True)}
     try:
         complement_dsDNA(meta)
@@ -184,7 +188,11 @@ def check(spec, ctx):
     if spec["bad"]:
         raise Violation("unknown_name_accepted", f"residue name {spec['bad'][1]!r} at position {spec['bad'][0]} "
                                                  f"was completed without an error")
-    verify(meta, names, before_nodes, before_edges, spec["circular"], "complement")
+    verify(meta, names, before_nodes, before_edges, spec["circular"], "complement", base=base)
+    if base:
+        ctx.label("strand_numbered_from_" + str(base + 1))
+        ctx.nontrivial = n >= 3
+        return
     # involution: complement of the second strand gives back the first
     second = nx.Graph()
     resid_to_node = {meta.nodes[k]["resid"]: k for k in meta.nodes}
